@@ -7,15 +7,44 @@ import execreplay
 
 
 class SubRun:
+    counter = 0
+
     def __init__(self, world, case):
         self.world = world
         self.case = case
         self.loop = main_loop()
         nodes = case["nodes"]
+        reverse = False
+        self.invalidation = ""
         if case["refused"] == "validation":
-            # the harness makes the document invalid: an unknown root field is added
-            nodes = list(nodes) + [dict(nodes[1], name="nope", alias="", args=[], dirs=[], parent=case["op"])]
-        self.doc = render.DocText(nodes)
+            # the harness makes the document invalid, in turn:
+            #   an unknown root field; the same root field a second time under another alias (two root response keys);
+            #   __typename beside the root field; an invalid subscription operation placed BEFORE the subscribed one
+            SubRun.counter += 1
+            how = SubRun.counter % 4
+            root = next(n for n in nodes if n["k"] == "F" and n["parent"] == case["op"])
+            if how == 0:
+                self.invalidation = "unknown-root-field"
+                nodes = list(nodes) + [dict(root, name="nope", alias="", args=[], dirs=[], parent=case["op"])]
+            elif how == 1:
+                self.invalidation = "same-root-field-under-a-second-alias"
+                nodes = list(nodes) + [dict(root, alias="again", dirs=[], parent=case["op"])]
+            elif how == 2:
+                self.invalidation = "typename-beside-the-root-field"
+                nodes = list(nodes) + [dict(root, name="__typename", alias="", args=[], dirs=[], parent=case["op"])]
+            else:
+                self.invalidation = "invalid-subscription-operation-before-the-subscribed-one"
+                nodes = [dict(n) for n in nodes]
+                if not nodes[case["op"] - 1]["name"]:
+                    nodes[case["op"] - 1]["name"] = "Main"
+                k = len(nodes)
+                nodes += [dict(nodes[case["op"] - 1], name="Other", vdefs=[], dirs=[]),
+                          dict(root, alias="x1", args=[], dirs=[], parent=k + 1), dict(root, alias="x2", args=[], dirs=[], parent=k + 1)]
+                nodes[k + 1]["args"] = []
+                case = dict(case, nodes=nodes)
+                self.case = case
+                reverse = True
+        self.doc = render.DocText(nodes, reverse_defs=reverse)
         self.events = case["events"]
         self.tables = []
         for k, out in enumerate(case["out"]):
